@@ -789,6 +789,11 @@ class Interp:
                 if r.denominator == 1:
                     return l ** int(r)
                 return Rat.const(l) ** r
+            if isinstance(op, (ast.BitAnd, ast.BitOr, ast.BitXor, ast.LShift, ast.RShift)) and l.denominator == 1 \
+                    and r.denominator == 1:
+                a, b = int(l), int(r)
+                return Fraction({ast.BitAnd: a & b, ast.BitOr: a | b, ast.BitXor: a ^ b, ast.LShift: a << b,
+                                 ast.RShift: a >> b}[type(op)])
         if isinstance(l, (Rat,) + NUM) and isinstance(r, (Rat,) + NUM) and not isinstance(l, bool) \
                 and not isinstance(r, bool):
             if isinstance(op, ast.Pow):
@@ -811,6 +816,8 @@ class Interp:
                 return nf.fn("mod", L, R)
             if isinstance(op, ast.FloorDiv):
                 return nf.fn("floordiv", L, R)
+            if isinstance(op, (ast.BitAnd, ast.BitOr, ast.BitXor, ast.LShift, ast.RShift)):
+                return nf.fn(type(op).__name__.lower(), L, R)
         raise self.err(f"binary operator {type(op).__name__} on {l!r} and {r!r}", node, fi)
 
     def _e_Compare(self, e, env, fi):
@@ -1037,6 +1044,14 @@ class Interp:
 
     def _e_Yield(self, e, env, fi):
         v = self.eval(e.value, env, fi) if e.value is not None else None
+        r = self.hooks.on_yield(self, v, e, fi)
+        if r is NotImplemented:
+            return self.drive(v, e, fi)
+        return r
+
+    def _e_YieldFrom(self, e, env, fi):
+        # value-wise `yield from g()` evaluates to g's return value, like a trampolined `yield g()`
+        v = self.eval(e.value, env, fi)
         r = self.hooks.on_yield(self, v, e, fi)
         if r is NotImplemented:
             return self.drive(v, e, fi)
